@@ -61,14 +61,22 @@ type chanState struct {
 	p      *chanPlan
 	t      *table
 
-	// writer side
+	// writer side (ws[1] is used in dual mode only; accepted / wErr / wErrText are summed up by collectWriters)
+	ws        [2]writerState
+	wLeft     atomic.Int32 // writer tasks that have not returned yet
+	closeLeft atomic.Int32 // writer tasks that have not finished their writes yet: the last one half-closes
 	attempted atomic.Int64 // bytes handed to Write so far (including a call in progress)
-	closing   atomic.Bool  // the writer has begun its half close
+	closing   atomic.Bool  // the (last) writer has begun its half close
 	accepted  int          // sum of Write return values
-	wErr      string       // kind of the error that ended the writer ("" = none)
+	wErr      string       // kind of the error that ended a writer ("" = none)
 	wErrText  string
 	wStarted  bool
 	wDone     atomic.Bool
+
+	// dual mode reader: the admissible parses of what was read so far as a concatenation of whole writes
+	dc         []dcand
+	zeroReads  int
+	zeroQueued bool // noise: a zero-length Read at a frame start has pulled the frame into the session's queue
 
 	// reader side
 	off          int // bytes delivered so far
@@ -89,14 +97,59 @@ type chanState struct {
 	rDone        atomic.Bool
 	prevEdge1    bool // previous read was a 1-byte read that consumed the last byte of a (notional) frame
 
-	wviol, rviol []common.Violation // writer / reader task each own one (they may run at the same instant)
-	wlog, rlog   oplog
-	arena        []byte
+	rviol []common.Violation // the reader task's own (tasks may run at the same instant)
+	rlog  oplog
+	arena []byte
 }
 
-func (c *chanState) wviolate(class, format string, a ...any) {
-	c.wviol = append(c.wviol, common.Violation{Class: class, Detail: c.id + ": " + fmt.Sprintf(format, a...)})
+// writerState belongs to one writer task.
+type writerState struct {
+	started  atomic.Int32 // number of Write calls begun
+	failed   atomic.Bool  // a Write returned an error or a short count: its bytes may stop anywhere
+	accepted int
+	wErr     string
+	wErrText string
+	viol     []common.Violation
+	log      oplog
 }
+
+func (c *chanState) writesOf(wi int) ([]int, []time.Duration) {
+	if wi == 1 {
+		return c.p.writes2, c.p.pauses2
+	}
+	return c.p.writes, c.p.pauses
+}
+
+func (c *chanState) nWriters() int {
+	if c.p.dual {
+		return 2
+	}
+	return 1
+}
+
+// collectWriters (after all tasks are done): sums of the writer tasks.
+func (c *chanState) collectWriters() {
+	c.accepted, c.wErr, c.wErrText = 0, "", ""
+	for i := 0; i < c.nWriters(); i++ {
+		ws := &c.ws[i]
+		c.accepted += ws.accepted
+		if c.wErr == "" {
+			c.wErr, c.wErrText = ws.wErr, ws.wErrText
+		}
+	}
+}
+
+// wbyte is the payload of dual mode, keyed per WRITE: (stream, direction, writer, index of the write, offset in it).
+func wbyte(stream, dir, wi, idx, off int) byte {
+	x := uint32(off)*2654435761 + uint32(stream*2+dir+1)*0x85ebca6b + uint32(wi+1)*0xc2b2ae35 + uint32(idx+1)*0x27d4eb2f
+	x ^= x >> 15
+	x *= 0x2c1b3c6d
+	x ^= x >> 12
+	x *= 0x297a2d39
+	x ^= x >> 15
+	return byte(x)
+}
+
 func (c *chanState) violate(class, format string, a ...any) {
 	c.rviol = append(c.rviol, common.Violation{Class: class, Detail: c.id + ": " + fmt.Sprintf(format, a...)})
 }
@@ -192,13 +245,22 @@ const maxArena = 1<<20 + 64
 // reader budget for small buffers (each Read costs scheduler decisions): beyond it small sizes are promoted
 const tinyBudget, midBudget = 96, 400
 
+// zero-length reads make no progress: at most this many per reader, then they become ordinary ones
+const zeroBudget = 24
+
 func (c *chanState) resolve(b bufSpec) int {
 	size := b.v
 	if b.rel {
 		size = c.frameRem(c.off) + 16 + b.v
-	}
-	if size < 1 {
-		size = 1
+		if size < 1 {
+			size = 1
+		}
+	} else if size == 0 {
+		if c.zeroReads < zeroBudget {
+			c.zeroReads++
+			return 0
+		}
+		size = 4096
 	}
 	if c.w.p.mode != simnet.Tiny { // the payload can be large
 		if size < 256 && c.reads >= tinyBudget {
@@ -215,59 +277,83 @@ func (c *chanState) resolve(b bufSpec) int {
 
 func slackByte(i int) byte { return 0x5a ^ byte(i*7) }
 
-// writer task
-func (c *chanState) writer(e *end) {
+// writer task (wi = 0, or 1 for the second writer of dual mode)
+func (c *chanState) writer(e *end, wi int) {
 	w := c.w
+	ws := &c.ws[wi]
 	defer func() {
-		c.wDone.Store(true)
+		if c.wLeft.Add(-1) == 0 {
+			c.wDone.Store(true)
+		}
 		w.taskDone()
 	}()
 	simrt.Recv("gate", w.gate)
 	p := c.p
+	lay := w.layer()
+	writes, pauses := c.writesOf(wi)
+	violate := func(class, format string, a ...any) {
+		ws.viol = append(ws.viol, common.Violation{Class: class, Detail: fmt.Sprintf("%s writer %d: ", c.id, wi) + fmt.Sprintf(format, a...)})
+	}
 	pos := 0
-	for i, sz := range p.writes {
-		if p.pauses[i] > 0 {
-			simrt.TimeSleep(p.pauses[i])
+	for i, sz := range writes {
+		if pauses[i] > 0 {
+			simrt.TimeSleep(pauses[i])
 		}
-		buf := c.t.src[pos : pos+sz : pos+sz]
+		var buf, ref []byte
+		if p.dual {
+			ref = make([]byte, sz)
+			for k := range ref {
+				ref[k] = wbyte(c.stream, c.dir, wi, i, k)
+			}
+			buf = append(make([]byte, 0, sz), ref...)
+		} else {
+			buf, ref = c.t.src[pos:pos+sz:pos+sz], c.t.exp[pos:pos+sz]
+		}
 		c.attempted.Add(int64(sz))
+		ws.started.Store(int32(i + 1))
 		s0 := simrt.Stamp()
 		n, err := e.rw.Write(buf)
 		s1 := simrt.Stamp()
 		w.progress.Add(1)
-		c.wlog.addf("[%d..%d] Write(%d bytes @%d) = %d, %s", s0, s1, sz, pos, n, errKind(err))
-		if string(buf) != string(c.t.exp[pos:pos+sz]) {
-			copy(buf, c.t.exp[pos:pos+sz])
-			c.wviolate("C02/write-modified-buffer/"+w.layer(), "Write(%d bytes at offset %d) changed the caller's buffer", sz, pos)
+		ws.log.addf("[%d..%d] Write #%d (%d bytes @%d) = %d, %s", s0, s1, i, sz, pos, n, errKind(err))
+		if string(buf) != string(ref) {
+			copy(buf, ref)
+			violate("C02/write-modified-buffer/"+lay, "Write(%d bytes at offset %d) changed the caller's buffer", sz, pos)
 		}
 		if n < 0 || n > sz {
-			c.wviolate("C02/write-count-out-of-range/"+w.layer(), "Write(%d bytes at offset %d) returned n=%d", sz, pos, n)
-			c.wErr = "violation"
+			ws.failed.Store(true)
+			violate("C02/write-count-out-of-range/"+lay, "Write(%d bytes at offset %d) returned n=%d", sz, pos, n)
+			ws.wErr = "violation"
 			return
 		}
-		c.accepted += n
+		ws.accepted += n
 		pos += n
 		if err != nil {
-			c.wErr, c.wErrText = errKind(err), err.Error()
+			ws.failed.Store(true)
+			ws.wErr, ws.wErrText = errKind(err), err.Error()
 			return
 		}
 		if n != sz {
-			c.wviolate("C02/short-write-without-error/"+w.layer(), "Write(%d bytes at offset %d) returned n=%d and a nil error", sz, pos-n, n)
-			c.wErr = "violation"
+			ws.failed.Store(true)
+			violate("C02/short-write-without-error/"+lay, "Write(%d bytes at offset %d) returned n=%d and a nil error", sz, pos-n, n)
+			ws.wErr = "violation"
 			return
 		}
 	}
-	if d := p.pauses[len(p.writes)]; d > 0 {
+	if d := pauses[len(writes)]; d > 0 {
 		simrt.TimeSleep(d)
+	}
+	if c.closeLeft.Add(-1) > 0 {
+		return // the other writer is still at work: it will half-close
 	}
 	c.closing.Store(true)
 	w.sideClosed[c.stream][c.dir].Store(true)
 	s0 := simrt.Stamp()
 	err := e.closeW()
 	w.progress.Add(1)
-	c.wlog.addf("[%d..%d] CloseWrite() = %s", s0, simrt.Stamp(), errKind(err))
+	ws.log.addf("[%d..%d] CloseWrite() = %s", s0, simrt.Stamp(), errKind(err))
 	if err != nil {
-		c.wErr, c.wErrText = "close-"+errKind(err), err.Error()
+		ws.wErr, ws.wErrText = "close-"+errKind(err), err.Error()
 	}
 }
 
@@ -296,7 +382,13 @@ func (c *chanState) reader(e *end) {
 		if fillN < 0 {
 			fillN = 0
 		}
-		copy(buf[:fillN], c.t.neg[c.off:c.off+fillN])
+		if p.dual {
+			for j := 0; j < fillN; j++ {
+				buf[j] = 0x5c
+			}
+		} else {
+			copy(buf[:fillN], c.t.neg[c.off:c.off+fillN])
+		}
 		for j := size; j < len(full); j++ {
 			full[j] = slackByte(j - size)
 		}
@@ -329,17 +421,37 @@ func (c *chanState) reader(e *end) {
 			}
 		}
 		if n > 0 {
-			if !c.checkData(buf[:n], startOff, size) {
+			good := false
+			if p.dual {
+				good = c.checkDual(buf[:n], startOff, size, e)
+			} else {
+				good = c.checkData(buf[:n], startOff, size)
+			}
+			if !good {
 				c.rEnd = "violation"
 				return
 			}
 			c.off += n
 			c.dataReads++
 			c.zeroRun = 0
-			c.probesOnData(size, n, rem, fresh, startOff)
+			if !p.dual {
+				c.probesOnData(size, n, rem, fresh && !c.zeroQueued, startOff)
+			}
+			c.zeroQueued = false
+		}
+		if size == 0 {
+			// a zero-length Read returns 0 (checked above: n <= len(buf)) and changes nothing: whatever it did to the
+			// layer's state shows in the reads that follow
+			w.probe("zero-length-read")
+			if rem > 0 && !fresh {
+				w.probe("zero-length-read-inside-a-frame")
+			}
+			if w.p.layer == layNoise && fresh && err == nil {
+				c.zeroQueued = true
+			}
 		}
 		if err == nil {
-			if n == 0 {
+			if n == 0 && size > 0 {
 				// io.Reader allows (0, nil) ("nothing happened"); only an endless run of them is no progress
 				w.probe("zero-byte-read")
 				c.zeroRun++
@@ -429,7 +541,11 @@ func (c *chanState) afterEOF(e *end) {
 	w := c.w
 	for k := 0; k < c.p.postEOF; k++ {
 		buf := c.arena[:16]
-		copy(buf, c.t.neg[c.off:c.off+16])
+		if c.p.dual {
+			copy(buf, "\x5c\x5c\x5c\x5c\x5c\x5c\x5c\x5c\x5c\x5c\x5c\x5c\x5c\x5c\x5c\x5c")
+		} else {
+			copy(buf, c.t.neg[c.off:c.off+16])
+		}
 		if e.setRDL != nil {
 			e.setRDL(time.Now().Add(time.Second))
 		}
@@ -443,7 +559,12 @@ func (c *chanState) afterEOF(e *end) {
 		}
 		if n != 0 {
 			// judged at the end of the run (premature EOF or data after the end)
-			good := int64(c.off+n) <= c.attempted.Load() && string(buf[:n]) == string(c.t.exp[c.off:c.off+n])
+			good := false
+			if c.p.dual {
+				good = c.advanceDual(buf[:n]) == nil
+			} else {
+				good = int64(c.off+n) <= c.attempted.Load() && string(buf[:n]) == string(c.t.exp[c.off:c.off+n])
+			}
 			if c.afterEOFData == 0 {
 				c.afterEOFGood = good
 			} else {
@@ -488,4 +609,193 @@ func (c *chanState) probesOnData(size, n, rem int, fresh bool, startOff int) {
 	if n < size && n < rem {
 		w.probe("short-read")
 	}
+}
+
+// ---- dual mode: two writer tasks on one connection ------------------------------------------------
+//
+// READING TAKEN (said in the header too): with several goroutines writing to one connection - which net.Conn
+// explicitly allows - "in order" can only mean per Write call: the bytes of one accepted Write arrive contiguous and
+// complete, whole writes of the two writers may follow each other in any order that keeps each writer's own order.
+// The reader keeps every admissible parse of what it has read so far (more than one only while the first bytes of
+// both writers' next writes coincide); when none is left the stream is not such a concatenation.
+
+type dcand struct {
+	next [2]int // per writer: index of its next write that has not been fully read
+	cur  int    // writer whose write is being read, -1 = on a boundary between writes
+	pos  int    // bytes of that write read so far
+}
+
+type dmiss struct { // where a parse died (for the diagnosis)
+	at       int // bytes of this call consumed before the mismatch
+	wi, idx  int
+	pos, len int
+	boundary bool // died on a boundary: no pending write starts with these bytes
+}
+
+// advanceDual advances every admissible parse over got; nil = at least one survives, otherwise the parse that got furthest.
+func (c *chanState) advanceDual(got []byte) *dmiss {
+	if c.dc == nil {
+		c.dc = []dcand{{cur: -1}}
+	}
+	var out []dcand
+	var best *dmiss
+	seen := map[dcand]bool{}
+	var walk func(cd dcand, at int)
+	walk = func(cd dcand, at int) {
+		for {
+			if cd.cur < 0 {
+				// skip zero-length writes (they put nothing on the wire)
+				for wi := 0; wi < 2; wi++ {
+					ws, _ := c.writesOf(wi)
+					for cd.next[wi] < len(ws) && ws[cd.next[wi]] == 0 {
+						cd.next[wi]++
+					}
+				}
+				if at == len(got) {
+					if !seen[cd] {
+						seen[cd] = true
+						out = append(out, cd)
+					}
+					return
+				}
+				forked := false
+				for wi := 0; wi < c.nWriters(); wi++ {
+					ws, _ := c.writesOf(wi)
+					idx := cd.next[wi]
+					// a write can only show up once its Write call has begun
+					if idx < len(ws) && int(c.ws[wi].started.Load()) > idx && got[at] == wbyte(c.stream, c.dir, wi, idx, 0) {
+						nc := cd
+						nc.cur, nc.pos = wi, 0
+						walk(nc, at)
+						forked = true
+					}
+				}
+				if !forked && (best == nil || at >= best.at) {
+					best = &dmiss{at: at, boundary: true, wi: -1}
+				}
+				return
+			}
+			ws, _ := c.writesOf(cd.cur)
+			idx := cd.next[cd.cur]
+			sz := ws[idx]
+			for cd.pos < sz && at < len(got) {
+				if got[at] != wbyte(c.stream, c.dir, cd.cur, idx, cd.pos) {
+					if c.ws[cd.cur].failed.Load() && idx == int(c.ws[cd.cur].started.Load())-1 {
+						// that Write failed: its bytes may stop anywhere
+						nc := cd
+						nc.next[cd.cur]++
+						nc.cur, nc.pos = -1, 0
+						walk(nc, at)
+					}
+					if best == nil || at >= best.at {
+						best = &dmiss{at: at, wi: cd.cur, idx: idx, pos: cd.pos, len: sz}
+					}
+					return
+				}
+				cd.pos++
+				at++
+			}
+			if cd.pos == sz {
+				cd.next[cd.cur]++
+				cd.cur, cd.pos = -1, 0
+				continue
+			}
+			if !seen[cd] {
+				seen[cd] = true
+				out = append(out, cd)
+			}
+			return
+		}
+	}
+	for _, cd := range c.dc {
+		walk(cd, 0)
+	}
+	if len(out) == 0 {
+		if best == nil {
+			best = &dmiss{boundary: true, wi: -1}
+		}
+		return best
+	}
+	c.dc = out
+	return nil
+}
+
+func (c *chanState) checkDual(got []byte, off, size int, e *end) bool {
+	w := c.w
+	lay := w.layer()
+	m := c.advanceDual(got)
+	if m == nil {
+		if len(c.dc) > 1 {
+			w.probe("dual-ambiguous-parse")
+		}
+		return true
+	}
+	// diagnosis: do the bytes at the point of divergence begin a pending write of the OTHER writer? A few more bytes
+	// are read for that when the call ended too close to it.
+	tail := append([]byte(nil), got[m.at:]...)
+	for k := 0; k < 3 && len(tail) < 12; k++ {
+		buf := make([]byte, 16)
+		if e.setRDL != nil {
+			e.setRDL(time.Now().Add(time.Second))
+		}
+		n, err := e.rw.Read(buf)
+		if n > 0 && n <= 16 {
+			tail = append(tail, buf[:n]...)
+		}
+		if err != nil {
+			break
+		}
+	}
+	if e.setRDL != nil {
+		e.setRDL(time.Time{})
+	}
+	startOf := ""
+	for wi := 0; wi < c.nWriters() && startOf == ""; wi++ {
+		ws, _ := c.writesOf(wi)
+		for idx, sz := range ws {
+			if wi == m.wi && idx == m.idx {
+				continue
+			}
+			k := min(len(tail), sz, 12)
+			if k < 1 {
+				continue
+			}
+			match := true
+			for j := 0; j < k; j++ {
+				if tail[j] != wbyte(c.stream, c.dir, wi, idx, j) {
+					match = false
+					break
+				}
+			}
+			// a short intruder: what follows it must be the rest of the interrupted write
+			cont := 0
+			if match && k == sz && !m.boundary {
+				for cont < 8 && k+cont < len(tail) && m.pos+cont < m.len {
+					if tail[k+cont] != wbyte(c.stream, c.dir, m.wi, m.idx, m.pos+cont) {
+						match = false
+						break
+					}
+					cont++
+				}
+			}
+			if k+cont < 2 {
+				match = false
+			}
+			if match {
+				startOf = fmt.Sprintf("the beginning of write #%d of writer %d (%d bytes)", idx, wi, sz)
+				break
+			}
+		}
+	}
+	where := fmt.Sprintf("Read #%d (buffer %d) returned %d bytes at stream offset %d; ", c.reads, size, len(got), off)
+	switch {
+	case !m.boundary && startOf != "":
+		c.violate("C02/write-not-atomic/"+lay+c.ctx(), "%sat stream offset %d, %d bytes into write #%d of writer %d (%d bytes, accepted by one Write call), the stream goes on with %s: the write was cut in two by a concurrent Write on the same connection (or its remainder was dropped)",
+			where, off+m.at, m.pos, m.idx, m.wi, m.len, startOf)
+	case !m.boundary:
+		c.violate("C02/wrong-bytes/"+lay+"/two-writers"+c.ctx(), "%sfirst wrong byte at stream offset %d, %d bytes into write #%d of writer %d (%d bytes): got %#02x want %#02x", where, off+m.at, m.pos, m.idx, m.wi, m.len, got[m.at], wbyte(c.stream, c.dir, m.wi, m.idx, m.pos))
+	default:
+		c.violate("C02/wrong-bytes/"+lay+"/two-writers"+c.ctx(), "%sat stream offset %d, on a boundary between writes, the stream goes on with bytes that begin no pending write of either writer (got %#02x)", where, off+m.at, got[m.at])
+	}
+	return false
 }
